@@ -24,6 +24,10 @@ CLAIMED = {
             "differential explicit-state exploration: every history to depth 3 (4 thorough) replayed on the real code with and without close/reopen at every position; exhaustive serializer round trip over all values up to a node bound",
             "Every feasible sequence of 17 operations is executed on the real implementation straight through and again with close()+reopen inserted at each position (thorough: each pair), then driven through undo-all/redo-all and selective undo/redo probes; the two runs must agree observation by observation (history lists with contents, tree after every probe step, stored object info across the reopen). All nested values with <=4 (6) nodes over a collision-prone atom alphabet are round-tripped through JSON text for both serializer versions with type-exact comparison.",
             "differential oracle: the run without reopen is the reference; bounded depth and value size; time stamps not compared", "3/C12"),
+    "C16": ("exploration",
+            "bounded-exhaustive enumeration of file contents x newline convention x encoding declaration x edit, executed on the real File/ChangeContents/Rename code with independently computed expected bytes",
+            "All texts of <=2 (3) lines over 9 character-class atoms x {LF,CRLF,CR} x final newline x 10 encoding declarations x 3 cookie forms x 6 cookie placements are written as raw bytes; through rope each is written back unchanged, edited line by line, renamed, undone, re-edited after its newline convention changed behind rope's back, and written to a new file; every resulting byte string is compared with bytes computed from the line list.",
+            "expected bytes computed independently of rope's codec/newline code; mixed newlines and unencodable contents excluded by the property", "3/C16"),
 }
 
 PENDING_REASON = "check not built yet in this session (see DESIGN.md section 8 build order); nothing is claimed for it"
